@@ -67,7 +67,9 @@ CLAIMED = {
     "C13": dict(text="Frame conditions of PerceptionEvaluationManager._filter_objects and add_frame_result are proved for all inputs: no write to the caller's "
                      "estimate list, to the ground-truth frame handed in (the loaded dataset) or to any earlier frame result; the evaluated frame is a new object "
                      "with the same stamp and transforms; exactly one new result is appended.",
-                note="filter_objects / get_object_results / the frame-result constructor / evaluate_frame are cut at contracts (evaluate_frame may write only "
+                note="get_scene_result is verified for a fixed pair of target labels (loop invariant: slot k+1 of each label's pool is frame k's results of that label, ground-truth counts "
+                     "add up, every frame used once in order), and evaluate_frame with the detection metrics on (the frame's own score is computed from the filtered lists). "
+                     "filter_objects / get_object_results / the frame-result constructor / evaluate_frame are cut at contracts (evaluate_frame may write only "
                      "its own result's object_results and its own frame's objects: body under C03). Scene pooling, one-frame scene == frame score, order "
                      "independence and determinism rest on the native harness (bounded: sequences of up to 6 calls on up to 3 frames).", ref="5/C13"),
     "C05": dict(text="CLEAR._is_same_match / _is_id_switched are verified against their truth tables, _calculate_score against the MOTA/MOTP formulas, and "
